@@ -7,28 +7,7 @@
    script code after RawSignatureHash's own FindAndDelete(code, OP_CODESEPARATOR) – i.e.
    the oracle is "ECDSA-verify sig[:-1] under pubkey on the legacy sighash whose subscript
    is code'" (C03, C05, C13 are about that oracle). *)
-From BV Require Import Common.Base Common.PyList Common.Tx Common.ScriptFlags Gen.ScriptConsts Gen.EvalConsts Model.Script.
-
-(* ---------- script.py: FindAndDelete ---------- *)
-Fixpoint fad_loop (script sig : bytes) (ops : list sop) (r : bytes) (last : Z) (skip : bool) : bytes * Z * bool :=
-  match ops with
-  | [] => (r, last, skip)
-  | o :: rest =>
-      let r := if negb skip then r ++ py_slice script last (sop_idx o) else r in
-      let last := sop_idx o in
-      let skip := bytes_eqb (py_slice script (sop_idx o) (sop_idx o + lenZ sig)) sig in
-      fad_loop script sig rest r last skip
-  end.
-Definition find_and_delete (script sig : bytes) : res bytes :=
-  let '(ops, err) := raw_iter script in
-  let '(r, last, skip) := fad_loop script sig ops [] 0 true in
-  match err with
-  | Some e => Err e                     (* the generator raises inside the for loop *)
-  | None => Ok (if negb skip then r ++ py_slice script last (lenZ script) else r)
-  end.
-(* CScript([x]) for a byte string x: one push operation *)
-Definition push_of (x : bytes) : res bytes := encode_op_pushdata x.
-
+From BV Require Import Common.Base Common.PyList Common.Tx Common.ScriptFlags Gen.ScriptConsts Gen.EvalConsts Model.Script Model.FindAndDelete.
 
 Section Eval.
 Variable checksig : bytes -> bytes -> bytes -> bool.
